@@ -376,7 +376,8 @@ Proof.
         destruct (exec_file _ _ KUse p id _) as [s2|e s2|]; auto.
         destruct P as (P1 & P2 & P3 & P4). unfold cpost, kinv; cbn [trace cache unlock add_cache set_cache set_loading].
         repeat split; auto.
-        intros x [<-|Hx]; [exact P4|apply P2; exact Hx].
+        -- intros x [<-|Hx]; [exact P4|apply P2; exact Hx].
+        -- apply Q. exact P4.
     + destruct (mem p (cache s1)) eqn:Mc.
       * unfold cpost, kinv; cbn [trace cache unlock note set_loading fin]. rewrite T1, C1. repeat split; auto.
         -- apply extends_refl.
@@ -385,10 +386,12 @@ Proof.
         destruct (exec_file _ _ KForward p id _) as [s2|e s2|]; auto.
         destruct P as (P1 & P2 & P3 & P4). unfold cpost, kinv; cbn [trace cache unlock add_cache set_cache set_loading].
         repeat split; auto.
-        intros x [<-|Hx]; [exact P4|apply P2; exact Hx].
+        -- intros x [<-|Hx]; [exact P4|apply P2; exact Hx].
+        -- apply Q. exact P4.
     + pose proof (B KLoadCss s1 eq_refl) as P. rewrite C1, T1 in P. specialize (P C).
       destruct (exec_file _ _ KLoadCss p id _) as [s2|e s2|]; auto.
       destruct P as (P1 & P2 & P3 & P4). unfold cpost, kinv; cbn [trace cache unlock set_loading]. repeat split; auto.
+      apply Q. exact P4.
   - destruct F as (L & C1 & T1 & R). destruct K as (O & C).
     destruct (is_import k && plain_css u unq); [|exact I].
     unfold cpost, kinv; cbn [trace cache push_import]. rewrite T1, C1. repeat split; auto.
@@ -502,9 +505,8 @@ Proof.
         { intros x [<-|Hx]; [right; eapply finite; eauto|apply I; exact Hx]. }
         assert (R1 : room f (note (EvBody kk p id) s0)).
         { unfold room in *. cbn [loading note]. rewrite E, L1. cbn. lia. }
-        unfold room in R1. cbn [loading note] in R1. rewrite E, L1 in R1.
         specialize (P N1 I1 R1).
-        destruct (exec_body _ p (content id) _); cbn in P |- *; auto. rewrite P, E, L1. reflexivity. }
+        destruct (exec_body _ p (content id) _); cbn in P |- *; auto. }
       destruct k.
       * pose proof (B KImport (set_cache [] s1) eq_refl) as P.
         destruct (exec_file _ _ KImport p id _); cbn in P |- *; auto. rewrite P, L1. apply remove1_head. exact M.
